@@ -98,6 +98,9 @@ impl Kind for ScriptKind {
 pub struct ReplayFile<C> {
     pub props: Vec<String>,
     pub note: String,
+    /// "thorough": only replayed in the thorough tier (expensive probes)
+    #[serde(default)]
+    pub tier: Option<String>,
     pub script: C,
 }
 
@@ -386,7 +389,7 @@ pub fn worker_k<K: Kind>(args: &[String]) -> i32 {
     0
 }
 
-pub const BIG_PROPS: [&str; 9] = ["C01", "C02", "C03", "C04", "C05", "C06", "C11", "C15", "C16"];
+pub const BIG_PROPS: [&str; 13] = ["C01", "C02", "C03", "C04", "C05", "C06", "C09", "C10", "C11", "C12", "C14", "C15", "C16"];
 pub const SWEEP_PROPS: [&str; 8] = ["C01", "C02", "C03", "C04", "C05", "C06", "C08", "C11"];
 
 /// One worker of the small-scope sweep: cases index, index+of, ...
@@ -531,7 +534,7 @@ fn save_found<C: Serialize + Clone>(id: &str, s: &C, note: &str) -> PathBuf {
     let dir = root().join("replays/found");
     let _ = std::fs::create_dir_all(&dir);
     let path = dir.join(format!("{}-{:016x}.json", id, case_hash(s)));
-    let rf = ReplayFile { props: vec![id.to_string()], note: note.to_string(), script: s.clone() };
+    let rf = ReplayFile { props: vec![id.to_string()], note: note.to_string(), tier: None, script: s.clone() };
     let _ = std::fs::write(&path, serde_json::to_string_pretty(&rf).unwrap());
     path
 }
@@ -580,6 +583,9 @@ pub fn launcher_k<K: Kind>(args: &[String]) -> i32 {
         };
         let listed = hdr.get("props").and_then(|p| p.as_array()).map(|a| a.iter().any(|x| x.as_str() == Some(id.as_str()))).unwrap_or(false);
         if !listed {
+            continue;
+        }
+        if tier == Tier::Quick && hdr.get("tier").and_then(|t| t.as_str()) == Some("thorough") {
             continue;
         }
         let r = match load_replay::<K::Case>(f) {
